@@ -519,4 +519,11 @@ def run(ctx, rep):
     # (get_plain / unwrap / files.last().unwrap()) unreachable after a failed call
     from rules.C12 import ts_rules
     ts_rules(facts, rep)               # reported as C11/C12-TS
+    # ... and the readers' counterparts: the AES adapter's `assert!(!finalized)` and ZipFile's lazily built reader stay unreachable
+    # after a call that failed half-way only if the state they test was updated before the fallible step
+    if facts.find(r"^aes_ctr::AesCtrZipKeyStream"):
+        from rules.C16 import mac_rules
+        mac_rules(facts, rep)          # reported as C11/C16-MAC
+    from rules.C05 import rule_ts_zipfile
+    rule_ts_zipfile(facts, rep)        # reported as C11/C05-TS-ZIPFILE
     rep.assume("a failed seek/read/write leaves the stream position unspecified unless stated otherwise in a reviewed entry")
